@@ -37,6 +37,21 @@ def k_not(v):
     return None if v is None else (not v)
 
 
+TODAY = None  # set by the check (frozen day) so that relative date values can be resolved
+
+
+def _value_date(v: str):
+    d = _iso(v)
+    if d is not None:
+        return d
+    m = re.match(r"^(\d+)([dmyDMY])$", v)
+    if m and TODAY is not None:
+        from zmon.gen.query import resolve_date
+
+        return resolve_date(m.group(1) + m.group(2).lower(), TODAY)
+    return None
+
+
 class Universe:
     def __init__(self, notes: list[dict]):
         self.notes = notes
@@ -74,7 +89,7 @@ def eval_prop(pf, note) -> "bool | None":
     stored = note["props"][pf.key]
     vt = pf.value_type.name
     if vt == "DATE":
-        want = _iso(pf.value)
+        want = _value_date(pf.value)
         got = _iso(stored)
         if want is not None and got is None and stored[:1].isalpha() and stored.lower() != "now":
             # a word is not a date: it cannot satisfy a date comparison (the negated form,
